@@ -8,7 +8,10 @@ Patterns are generated with every subset of fnmatch's metacharacter kinds (`*`, 
 for ECUs, frames and signals; operations whose pattern carries a class have violation keys of their own.
 Search oracle: a transcription of the property's four sentences and its last sentence (set/list comprehensions over
 the state before the operation), evaluated on the real objects after every operation of every generated sequence;
-"changes nothing else" is checked on every attrs field of every Ecu/Frame/Signal and of the matrix."""
+"changes nothing else" is checked on every attrs field of every Ecu/Frame/Signal and of the matrix.
+Construction variants: the same definition built so that objects share parts (one list object used for two reference
+lists, copy.copy clones re-assigned field by field, deepcopy) must go through every sequence exactly like a plainly
+built matrix of that definition (keys shared-objects:<variant>)."""
 import fnmatch
 import attr
 import core
@@ -88,7 +91,40 @@ def ecu_fields(pay):
     return "ecu comment %d" % pay, {"EcuAttr": str(pay), "K%d" % (pay % 3): "v"}
 
 
-def build(C, desc):
+VARIANTS = ("shared-lists", "cloned-frames", "deepcopy")
+
+
+def build(C, desc, variant=None, vseed=0):
+    """The matrix a descriptor denotes.  variant=None: every list is an object of its own.
+    Other ways to arrive at the SAME definition through the public API (the objects then share parts):
+      shared-lists   equal reference lists (a frame's receivers and a signal's, two signals', two frames' senders, a sender
+                     list and a receiver list, ...) are handed over as ONE Python list object, decided per slot
+      cloned-frames  every frame after the first is copy.copy() of an earlier Frame object whose fields are then all
+                     re-assigned; its receiver list is re-established by update_receiver() when the definition is up to date
+      deepcopy       copy.deepcopy() of the shared-lists construction (keeps the sharing inside the copy)
+    returns (db, how many slots share an object)"""
+    import copy
+    import random
+    vr = random.Random(vseed)
+    shared = [0]
+    pool = {}
+
+    zone = ["frames"]
+
+    def lst(values):
+        """the list object for one reference slot.  Slots the operations rewrite (frames) and slots they leave alone (free
+        signals: rename/del/update do not visit CanMatrix.signals) never share an object - such a matrix would denote two
+        different definitions at once"""
+        if variant not in ("shared-lists", "deepcopy"):
+            return list(values)
+        key = (zone[0], tuple(values))
+        if key in pool and vr.random() < 0.6:
+            shared[0] += 1
+            return vr.choice(pool[key])
+        obj = list(values)
+        pool.setdefault(key, []).append(obj)
+        return obj
+
     db = C.CanMatrix()
     db.attributes["DBName"] = "net"
     db.add_frame_defines("GenMsgCycleTime", "INT 0 65535")
@@ -97,26 +133,44 @@ def build(C, desc):
     for name, pay in desc["ecus"]:
         c, a = ecu_fields(pay)
         db.ecus.append(C.Ecu(name, comment=c, attributes=dict(a)))
+
     def mksig(sd):
         p = sd["pay"]
         s = C.Signal(sd["name"], start_bit=(p * 8) % 56, size=1 + p % 8, is_little_endian=bool(p % 2), is_signed=bool(p % 3 == 0),
                      factor=1 + (p % 4), offset=p % 5, unit="u%d" % (p % 3), comment="sig comment %d" % p,
-                     receivers=list(sd["recv"]))
+                     receivers=lst(sd["recv"]))
         s.add_attribute("SigAttr", p)
         s.add_values(p % 4, "val%d" % p)
         return s
     for fd in desc["frames"]:
         p = fd["pay"]
-        fr = C.Frame(fd["name"], arbitration_id=C.ArbitrationId(p, extended=bool(p % 2)), size=8, comment="frame comment %d" % p,
-                     transmitters=list(fd["tx"]), cycle_time=10 * (p % 5))
+        if variant == "cloned-frames" and db.frames:
+            fr = copy.copy(vr.choice(db.frames))
+            shared[0] += 1
+            fr.name = fd["name"]
+            fr.arbitration_id = C.ArbitrationId(p, extended=bool(p % 2))
+            fr.comment = "frame comment %d" % p
+            fr.transmitters = list(fd["tx"])
+            fr.cycle_time = 10 * (p % 5)
+            fr.attributes = {}
+            fr.signals = []
+        else:
+            fr = C.Frame(fd["name"], arbitration_id=C.ArbitrationId(p, extended=bool(p % 2)), size=8, comment="frame comment %d" % p,
+                         transmitters=lst(fd["tx"]), cycle_time=10 * (p % 5))
         fr.add_attribute("GenMsgCycleTime", 10 * (p % 5))
         for sd in fd["sigs"]:
             fr.add_signal(mksig(sd))
-        fr.receivers = list(fd["rx"])
+        if variant == "cloned-frames" and list(fd["rx"]) == nub([r for sd in fd["sigs"] for r in sd["recv"]]):
+            fr.update_receiver()              # the API's own way to bring a frame's receiver list up to date
+        else:
+            fr.receivers = lst(fd["rx"])
         db.add_frame(fr)
+    zone[0] = "free"
     for sd in desc["free"]:
         db.add_signal(mksig(sd))
-    return db
+    if variant == "deepcopy":
+        db = copy.deepcopy(db)
+    return db, shared[0]
 
 
 REF_FIELDS = {"Frame": {"transmitters", "receivers", "signals"}, "Signal": {"receivers"},
@@ -416,12 +470,14 @@ def oracle(op, pre, post):
     return bad
 
 
-def run_sequence(C, desc, ops):
+def run_sequence(C, desc, ops, variant=None, vseed=0, check=True):
     """-> (states after each op (None where the op raised), [(step, key, what, expected, observed)], envelope notes)"""
-    db = build(C, desc)
+    db, _ = build(C, desc, variant, vseed)
     base = Base(db, desc)
     pre = state(db, base)
     states, fails, notes = [], [], []
+    if variant is not None and pre != desc_state(desc):
+        return None, [], ["construction does not denote the definition"]
     for i, op in enumerate(ops):
         if not applicable(op, pre):
             states.append(("skip", pre))
@@ -435,6 +491,9 @@ def run_sequence(C, desc, ops):
             break
         post = state(db, base)
         states.append((op, pre, post))
+        if not check:
+            pre = post
+            continue
         if env is None:
             for key, what, exp, obs in oracle(op, pre, post):
                 fails.append((i, key, what, exp, obs))
@@ -449,6 +508,70 @@ def run_sequence(C, desc, ops):
                     fails.append((i, "other-fields-changed", sh, None, None))
         pre = post
     return states, fails, notes
+
+
+PROPERTY_OPS = ("rename_name", "rename_inst", "del_inst", "del_foreign", "del_glob", "update", "obsolete")
+
+
+def variant_differs(C, desc, ops, variant, vseed):
+    """The property on a matrix whose objects share parts: every state must equal the state of a freshly, plainly built
+    matrix of the same definition under the same operations.  -> None or (step, what, expected, observed)"""
+    try:
+        ref, _, _ = run_sequence(C, desc, ops, check=False)
+    except Exception:
+        return None
+    try:
+        got, fails, notes = run_sequence(C, desc, ops, variant, vseed, check=False)
+    except Exception as e:
+        return (0, "raised %s: %s" % (type(e).__name__, e), None, None)
+    if got is None:
+        return None
+    for i, (a, b) in enumerate(zip(ref, got)):
+        if a is None:
+            return None
+        if b is None:
+            return (i, "operation %s raised on the %s construction only: %s" % (a[0][0], variant, fails[-1][2] if fails else ""), a[2], None)
+        if a[0] == "skip":
+            continue
+        if a[2] != b[2]:
+            return (i, "after %s the matrix built with %s differs from a plainly built matrix of the same definition" % (a[0][0], variant),
+                    {"ecus": a[2]["ecus"], "frames": a[2]["frames"], "free": a[2]["free"]},
+                    {"ecus": b[2]["ecus"], "frames": b[2]["frames"], "free": b[2]["free"]})
+    return None
+
+
+def shrink_by(pred, desc, ops):
+    """smallest (desc, ops) found for which pred(desc, ops) still holds"""
+    import copy
+    ops = list(ops)
+    changed = True
+    while changed:
+        changed = False
+        for i in range(len(ops)):
+            cand = ops[:i] + ops[i + 1:]
+            if cand and pred(desc, cand):
+                ops, changed = cand, True
+                break
+    changed = True
+    while changed:
+        changed = False
+        cands = []
+        for i in range(len(desc["frames"])):
+            d = copy.deepcopy(desc); del d["frames"][i]; cands.append(d)
+            for j in range(len(desc["frames"][i]["sigs"])):
+                d = copy.deepcopy(desc); del d["frames"][i]["sigs"][j]
+                d["frames"][i]["rx"] = nub([r for x in d["frames"][i]["sigs"] for r in x["recv"]]); cands.append(d)
+            for q in range(len(desc["frames"][i]["tx"])):
+                d = copy.deepcopy(desc); del d["frames"][i]["tx"][q]; cands.append(d)
+        for i in range(len(desc["free"])):
+            d = copy.deepcopy(desc); del d["free"][i]; cands.append(d)
+        for i in range(len(desc["ecus"])):
+            d = copy.deepcopy(desc); del d["ecus"][i]; cands.append(d)
+        for d in cands:
+            if pred(d, ops):
+                desc, changed = d, True
+                break
+    return desc, ops
 
 
 # ------------------------------------------------------------------ generators
@@ -654,7 +777,8 @@ def run(chk):
                 "referenced by a free signal only), 1..5 frames x 0..4 signals with 0..4 receivers, 0..3 senders, an ECU that sends one frame and "
                 "receives in another; sequences of 1..12 operations chosen against the current state (rename by name / by object, del by object / "
                 "foreign object / glob pattern with * and ?, update_ecu_list, delete_obsolete_ecus, add/del_signal_receiver with globs); the whole "
-                "state is compared after every operation. Separate streams outside the envelope (duplicate entries, stale frame receivers, white "
+                "state is compared after every operation; 40% of the sequences (25% thorough) are repeated on three other constructions of the same "
+                "definition (shared list objects, copy.copy clones, deepcopy) and compared with the plain run. Separate streams outside the envelope (duplicate entries, stale frame receivers, white "
                 "space or * ? in names, duplicate ECUs) are tied to the model only. non-trivial = some operation of the sequence changed the ECU list "
                 "or a reference list; distinct by (matrix, operations). Glob: all patterns of length <= 4 over {a,b,*,?} x all names of length <= 4 "
                 "over {a,b}, plus random pairs over an alphabet with regex metacharacters; classes: all patterns of length <= 4 over {a,b,[,],!,-} x "
@@ -704,10 +828,11 @@ def run(chk):
             seqs.append((exotic or "envelope", desc, None, False))
 
     shrunk_keys = set()
+    variant_share = 0.4 if not thorough else 0.25
     for tag, desc, ops, is_fixed in seqs:
         # generate the operations against the evolving state (so that most of them hit something)
         if ops is None:
-            db = build(C, desc)
+            db, _ = build(C, desc)
             base = Base(db, desc)
             st = state(db, base)
             ops = []
@@ -772,6 +897,33 @@ def run(chk):
                 except Exception:
                     d2, o2 = desc, ops
             chk.violation(key, what, dict(matrix=d2, operations=[list(o) for o in o2], failing_step=step, stream=tag), exp, obs)
+        # the same definition arrived at through constructions whose objects share parts (same list object in two
+        # places, copy.copy clones, deepcopy): the operations must not see the difference
+        if tag in ("envelope", "example") and not fails and (is_fixed or rng.random() < variant_share):
+            for variant in VARIANTS:
+                # add/del_signal_receiver edit ONE signal's list in place: with two signals defined on one list object the
+                # definitions themselves differ, so the shared-list constructions are probed with the property's four operations
+                vops = ops if variant == "cloned-frames" else [o for o in ops if o[0] in PROPERTY_OPS]
+                if not vops:
+                    continue
+                vseed = rng.randrange(1 << 30)
+                _, nshared = build(C, desc, variant, vseed)
+                chk.count("construction:%s" % variant)
+                chk.count("construction:%s: slots sharing an object" % variant, nshared)
+                diff = variant_differs(C, desc, vops, variant, vseed)
+                chk.case(("variant", variant, vseed, freeze(desc), freeze(vops)), nshared > 0)
+                if diff is not None:
+                    key = "shared-objects:" + variant
+                    d2, o2 = desc, vops
+                    if key not in shrunk_keys:
+                        shrunk_keys.add(key)
+                        try:
+                            d2, o2 = shrink_by(lambda d, o: variant_differs(C, d, o, variant, vseed) is not None, desc, vops)
+                            diff = variant_differs(C, d2, o2, variant, vseed) or diff
+                        except Exception:
+                            d2, o2 = desc, vops
+                    chk.violation(key, diff[1], dict(matrix=d2, operations=[list(o) for o in o2], failing_step=diff[0], construction=variant,
+                                                    construction_seed=vseed), diff[2], diff[3])
         # model case: the matrix, the ops as the implementation saw them, the states after each op
         if any(s is None for s in states):
             continue
